@@ -129,8 +129,9 @@ TIE_NEEDS = {
     'C02': ['tie_constants', 'tie_floorMod', 'tie_intervalForWrite'],
     'C03': ['tie_Timestamp_Add', 'tie_Timestamp_Sub', 'tie_MaxRetention', 'tie_intervalForWrite'],
     'C04': ['tie_constants', 'tie_Timestamp_Add', 'tie_Timestamp_Sub', 'tie_MaxRetention', 'tie_floorMod', 'tie_interval'],
-    'C06': ['tie_constants', 'tie_pointIndex', 'tie_pointOffsetAt', 'tie_Header_Size'],
+    'C06': ['tie_constants', 'tie_pointIndex', 'tie_pointOffsetAt', 'tie_Header_Size', 'tie_ExpectedFileSize'],
     'C07': ['tie_MaxRetention', 'tie_validate'],
+    'C15': ['tie_ExpectedFileSize'],
     'C19': ['tie_constants'],
     'C20': ['tie_Timestamp_Add', 'tie_Timestamp_Truncate'],
 }
